@@ -169,8 +169,21 @@ def main(argv=None):
         racc = mod.replay(unjson(v['case']), args.tier)
         from mc.core import sigkey
         if sigkey(v['sig']) not in racc.violations:
-            print('INFRASTRUCTURE ERROR: violation %s did not reproduce identically on replay '
-                  '(got %s)' % (json.dumps(v['sig'], sort_keys=True), list(racc.violations)))
+            if racc.violations:
+                # The case violates the property when replayed alone, but with another signature
+                # than inside the shard: what the shard saw depended on earlier cases of the same
+                # worker process (state kept inside the library, e.g. a cache). The replay from a
+                # fresh state is the reproducible face and is what gets reported.
+                print('NOTE: violation %s is history dependent (seen after other cases in the same '
+                      'process); replayed alone the case gives %s' %
+                      (json.dumps(v['sig'], sort_keys=True), list(racc.violations)))
+                for v2 in racc.violations.values():
+                    if not any(findings.matches(e2, v2['sig']) for e2 in entries):
+                        confirmed_new.append(v2)
+                continue
+            print('INFRASTRUCTURE ERROR: violation %s did not reproduce on replay of the single case '
+                  '(harness nondeterminism, or library state carried over from earlier cases)' %
+                  json.dumps(v['sig'], sort_keys=True))
             rc = 2
             continue
         confirmed_new.append(v)
